@@ -98,6 +98,7 @@ std::function<ConnectDecision(const sockaddr *, socklen_t)> connect_policy;
 std::function<void(int, bool, const char *, size_t)> tap_stream;
 std::function<void(int, bool, const char *, size_t, const sockaddr *)> tap_dgram;
 std::function<void(int, bool, size_t)> io_ledger;
+std::function<void(int, bool)> io_retry;
 std::function<void(int, int, int, int)> accept_hook;
 
 void set_fault(Site s, int permille) { fault_pm[s] = permille; }
@@ -994,8 +995,8 @@ static ssize_t vk_read_common(int fd, void *buf, size_t n, bool &handled) {
 		if (it.v == 0) { sim::tr("sys read fd=%d scripted EOF", fd); return 0; }
 		limit = std::min<size_t>(n, (size_t)it.v);
 	} else if (active && e && e->kind == F_SIM) {
-		if (unusual(S_READ_EINTR)) { errno = EINTR; return -1; }
-		if (unusual(S_READ_EAGAIN)) { errno = EAGAIN; return -1; }
+		if (unusual(S_READ_EINTR)) { if (io_retry) io_retry(fd, false); errno = EINTR; return -1; }
+		if (unusual(S_READ_EAGAIN)) { if (io_retry) io_retry(fd, false); errno = EAGAIN; return -1; }
 		if (unusual(S_READ_ERR)) { errno = ECONNRESET; if (e->s && e->s->state == ST_CONNECTED) do_reset(e->s); if (e->s && e->s->in) e->s->in->rst_reported = true; return -1; }
 		if (n > 1 && unusual(S_READ_SHORT)) limit = 1 + G.bug.below(n - 1);
 	}
@@ -1077,8 +1078,8 @@ static ssize_t vk_write_common(int fd, const void *buf, size_t n, bool &handled)
 		limit = std::min<size_t>(n, (size_t)it.v);
 		if (limit == 0 && n > 0) { sim::tr("sys write fd=%d scripted 0", fd); return 0; }
 	} else if (active && e && e->kind == F_SIM) {
-		if (unusual(S_WRITE_EINTR)) { errno = EINTR; return -1; }
-		if (unusual(S_WRITE_EAGAIN)) { errno = EAGAIN; return -1; }
+		if (unusual(S_WRITE_EINTR)) { if (io_retry) io_retry(fd, true); errno = EINTR; return -1; }
+		if (unusual(S_WRITE_EAGAIN)) { if (io_retry) io_retry(fd, true); errno = EAGAIN; return -1; }
 		if (unusual(S_WRITE_ERR)) { errno = ECONNRESET; if (e->s && e->s->state == ST_CONNECTED) do_reset(e->s); if (e->s && e->s->in) e->s->in->rst_reported = true; return -1; }
 		if (n > 1 && unusual(S_WRITE_SHORT)) limit = 1 + G.bug.below(n - 1);
 	}
@@ -1477,6 +1478,7 @@ void vk_run_begin(void) {
 	tap_stream = nullptr;
 	tap_dgram = nullptr;
 	io_ledger = nullptr;
+	io_retry = nullptr;
 	accept_hook = nullptr;
 	while (!evq.empty()) evq.pop();
 	evseq = 0;
@@ -1492,6 +1494,7 @@ void vk_run_end(void) {
 	tap_stream = nullptr;
 	tap_dgram = nullptr;
 	io_ledger = nullptr;
+	io_retry = nullptr;
 	accept_hook = nullptr;
 	while (!evq.empty()) evq.pop();
 	// close whatever is still tracked so the next run starts from the same fd set
